@@ -52,6 +52,7 @@
 
 #include <deque>
 #include <list>
+#include <string>
 #include <vector>
 
 using namespace c04;
@@ -634,6 +635,20 @@ void apply3_case(i64 a_, i64 b_, i64 c_)
   {
     OE const y = mke(b);
     check(fcppt::optional::apply(f3, mk(a), y, mkr(c)), "mixed");
+  }
+  // mixed categories with a NON-const lvalue holding a heap string: the temporaries may be consumed,
+  // the lvalue is left untouched, and a second apply with it gives the same result
+  {
+    using OS = fcppt::optional::object<std::string>;
+    std::string const text(40, static_cast<char>('a' + b));
+    OS s = b == 0 ? OS{} : OS{text};
+    auto const g = [](D x, std::string y, R z) { return static_cast<int>(y.size()) * 100 + x.idx() * 10 + z.idx(); };
+    fcppt::optional::object<int> const r1 = fcppt::optional::apply(g, mk(a), s, mkr(c));
+    bool const untouched = b == 0 ? !s.has_value() : (s.has_value() && s.get_unsafe() == text);
+    chk(untouched, KEY(all, "optional::apply|non-const-lvalue-argument|modified"), [&] { return "apply(f, rvalue, lvalue, rvalue) changed its non-const lvalue argument (a string of 40 characters" + std::string(s.has_value() ? ", now of " + std::to_string(s.get_unsafe().size()) : ", now nothing") + ")"; });
+    fcppt::optional::object<int> const r2 = fcppt::optional::apply(g, mk(a), s, mkr(c));
+    bool const same = r1.has_value() == r2.has_value() && (!r1.has_value() || r1.get_unsafe() == r2.get_unsafe());
+    chk(same && r1.has_value() == all && (!all || r1.get_unsafe() == 4000 + (a - 1) * 10 + (c - 1)), KEY(all, "optional::apply|result|second-call-on-the-same-lvalue"), [&] { return "apply(f, rvalue, lvalue, rvalue) twice with the same lvalue: results differ or are wrong"; });
   }
   // maybe_multi / maybe_void_multi with three arguments
   {
